@@ -9,6 +9,8 @@
                      order, operators, nesting and operand order as written,
                      concatenations and alternatives flattened, ( ) transparent,
                      a trailing | an empty alternative, $NAME expanded;
+                     every declaration and every handle of a directive is
+                     recorded at the position of its first token;
      round trip    - printing the typed tree and parsing it again gives a tree
                      of the same structure, and the real Equal agrees (observed
                      by the harness);
@@ -54,6 +56,28 @@ NormDecl(d) == CASE d.k = "tok"  -> IF d.dk = "pre" THEN [d EXCEPT !.dk = "pat",
                  [] d.k = "dir"  -> [d EXCEPT !.hs = [j \in 1..Len(d.hs) |-> NormH(d.hs[j])]]
 TypedOk(c) == c.typerr = "" /\ c.name = "t" /\ c.typed = [i \in 1..Len(c.decls) |-> NormDecl(c.decls[i])]
 
+\* ---- positions recorded in the typed tree: a declaration, and each handle of a directive, is where its first token is.
+\* The reference is the generic tree (whose leaves are checked against the printed tokens above): the i-th declaration is
+\* the i-th decl node, the j-th handle of a directive the j-th term / rule_handle on the spine of its handles node.
+RECURSIVE FirstLeaf(_)
+FirstLeaf(g) == IF g.t = "leaf" THEN <<g>> ELSE
+                LET RECURSIVE F(_) F(i) == IF i > Len(g.c) THEN <<>> ELSE LET x == FirstLeaf(g.c[i]) IN IF x # <<>> THEN x ELSE F(i + 1) IN F(1)
+PosTriple(g) == LET l == FirstLeaf(g) IN IF l = <<>> THEN <<-1, -1, -1>> ELSE <<l[1].off, l[1].ln, l[1].col>>
+RECURSIVE DeclNodes(_)
+DeclNodes(ds) == IF ds.c = <<>> THEN <<>> ELSE DeclNodes(ds.c[1]) \o <<ds.c[2]>>          \* decls -> decls decl | (empty)
+RECURSIVE HandleNodes(_)
+HandleNodes(h) == IF Len(h.c) = 1 THEN <<h.c[1]>> ELSE HandleNodes(h.c[1]) \o <<h.c[2]>>     \* handles -> handles X | X
+TPosOk(c) == c.generr # "" \/ c.typerr # "" \/
+             LET ds == DeclNodes(c.gen[1].c[2]) IN
+             /\ Len(ds) = Len(c.tpos)
+             /\ \A i \in 1..Len(ds) :
+                  /\ c.tpos[i].d = PosTriple(ds[i])
+                  /\ LET inner == ds[i].c[1] IN
+                     IF inner.k = "directive"
+                     THEN LET hn == HandleNodes(inner.c[2]) IN
+                          Len(hn) = Len(c.tpos[i].hs) /\ \A j \in 1..Len(hn) : c.tpos[i].hs[j] = PosTriple(hn[j])
+                     ELSE c.tpos[i].hs = <<>>
+
 \* ---- grammar obtained from the typed tree = the one emerge derives ----
 RECURSIVE DenotN(_, _)
 DenotN(t, env) ==
@@ -85,6 +109,7 @@ Spec == Init /\ [][Next]_vars
 Rep(tag, c) == PrintT(tag \o " " \o ToJson([id |-> c.id]))
 Check(c) == /\ GenericOk(c) \/ Rep("GENERIC", c)
             /\ TypedOk(c) \/ Rep("TYPED", c)
+            /\ TPosOk(c) \/ Rep("TYPEDPOS", c)
             /\ (c.typerr = "" => (c.rtsame /\ c.rtequal)) \/ Rep("ROUNDTRIP", c)
             /\ (c.typerr # "" \/ GrammarOk(c)) \/ Rep("GRAMMAR", c)
 Inv == lvl = 2 => Check(Cases[k])
